@@ -9,6 +9,8 @@ C15 driver: interprets the *generated* descriptor table on histories sent by the
   new <class> <gid>                       fresh empty group
   mk <uid> <t1,t2,…|-> <a=id,…|->         object on the heap (types = names in its MRO; initial attribute contents)
   add <uid>                               group.add_observer / add_foil_detector
+  ctor <gid> <uid>*                       group = Cls(observers=[…]) on the current heap (Observer0DGroup family): a new
+                                          group node <gid> replaces the current one; on an exception the half-built group stays
   set <name> <obj> <item>*                group.<name> = value        obj/item = stored:rej:kind:engine
   setm <name> <kind> <uid>*               group.<name> = [observers]  (observers / sight_lines / foil_detectors)
   get <name>                              group.<name>
@@ -126,6 +128,9 @@ def step' (st : St) (ts : List String) : St × String :=
       match ts with
       | ["add", u] =>
         let r := addObserver ci st.w (pN u)
+        (({ st with w := r.1 } : St).normalise, res r)
+      | "ctor" :: g :: us =>
+        let r := construct ci (pN g) st.w.heap (us.map pN)
         (({ st with w := r.1 } : St).normalise, res r)
       | "set" :: name :: o :: items =>
         match findDesc table ci.name name with
